@@ -11,8 +11,9 @@
    is duplicate-free, holds exactly the vertices 0..n-1, and no block is empty;
    [same_comp comps u v] some block holds both. *)
 From Coq Require Import List Arith Bool.
+From Coq Require Import NArith.
 From RC Require Import Base.Res Model.Scc Proofs.SccCheck Proofs.SccDfs Proofs.SccKosaraju
-     Proofs.SccCheckComplete.
+     Proofs.SccCheckComplete Model.SccDeep Proofs.SccDeep.
 Import ListNotations.
 Import Scc.
 
@@ -107,6 +108,32 @@ Theorem c18_check_largest_complete : forall comps l,
     check_largest comps l = true.
 Proof. exact check_largest_complete. Qed.
 
+(* ---- the near-linear checker used on the "deep" family (4500..20000 vertices, where neither the
+   nat model nor check_scc can be evaluated): an accepted answer is the partition into
+   mutual-reachability classes, in the same vocabulary as the theorems above.  The order of the
+   blocks is an unchecked-origin certificate: soundness does not depend on it. ---- *)
+Theorem c18_deep_check_sound : forall g comps, SccDeep.deep_check g comps = true ->
+    scc_classes (to_nat_graph g) (to_nat_comps comps).
+Proof. exact deep_check_sound_nat. Qed.
+Check c18_deep_check_sound : forall g comps, SccDeep.deep_check g comps = true ->
+    scc_classes (to_nat_graph g) (to_nat_comps comps).
+Theorem c18_deep_check_sound_N : forall g comps, SccDeep.deep_check g comps = true ->
+    SccDeep.scc_classes g comps.
+Proof. exact deep_check_sound. Qed.
+Theorem c18_deep_check_largest_sound : forall comps l, SccDeep.check_largest comps l = true ->
+    (forall c, In c comps -> length c <= length l) /\ (In l comps \/ (comps = [] /\ l = [])).
+Proof. exact deep_check_largest_sound. Qed.
+(* the deep checker accepts the right answer in certificate order and rejects: the same blocks in
+   the reverse order, a merged block, a split block, a missing vertex *)
+Example c18_deep_check_example :
+  let g := SccDeep.mkGraph 5 [(0,1);(1,2);(2,0);(2,3);(3,4);(4,3)]%N in
+  SccDeep.deep_check g [[0;2;1];[3;4]]%N = true
+  /\ SccDeep.deep_check g [[3;4];[0;2;1]]%N = false
+  /\ SccDeep.deep_check g [[0;2;1;3;4]]%N = false
+  /\ SccDeep.deep_check g [[0;1];[2];[3;4]]%N = false
+  /\ SccDeep.deep_check g [[0;2;1];[3]]%N = false.
+Proof. repeat split; vm_compute; reflexivity. Qed.
+
 (* ---- non-vacuity: concrete graphs meet the hypotheses and have non-trivial answers ---- *)
 (* the fixture of scc.rs's own tests: a 4-clique {0,1,2,3} and the self loop 4 *)
 Definition fixture : graph :=
@@ -147,3 +174,6 @@ Print Assumptions c18_check_scc_complete.
 Print Assumptions c18_check_scc_decides.
 Print Assumptions c18_check_largest_sound.
 Print Assumptions c18_check_largest_complete.
+Print Assumptions c18_deep_check_sound.
+Print Assumptions c18_deep_check_sound_N.
+Print Assumptions c18_deep_check_largest_sound.
